@@ -3,6 +3,7 @@
 # every seeded change of /verif/seeded/sNN_Cxx is applied to a scratch worktree of /repo's HEAD and the quick check of ITS
 # property is run once per given VERIF_SEED (VERIF_REPO points at the worktree; /repo itself is not touched).
 # SHARD=i NSHARDS=n in the environment: only every n-th seeded change (for parallel runs).
+# ONLY=<regex>: only the seeded changes whose directory matches.
 # One line per (seeded change, seed): id, property, seed, outcome (failing-input | no-failing-input-found | MISSED | n/a).
 OUT="$1"; shift
 SEEDS="$@"
@@ -14,6 +15,7 @@ cd /verif || exit 2
 : > "$OUT"
 I=0
 for D in seeded/s[0-9][0-9]_C[0-9][0-9]; do
+  if [ -n "${ONLY:-}" ] && ! echo "$D" | grep -Eq "$ONLY"; then continue; fi
   I=$((I+1)); [ $((I % NSHARDS)) -eq $SHARD ] || continue
   SID=$(basename $D); P=${SID#*_}
   git -C $WT checkout -q -- . 
